@@ -26,7 +26,8 @@ type Engine struct {
 	inst        map[string][]*ssa.Function // generic contract key -> instantiations used by the program
 	effMemo     map[*ssa.Function]*effectSet
 	effDone     map[*ssa.Function]bool
-	activeProp  string // when set, only clauses serving this property are used (assumed and checked)
+	effSites    map[*ssa.Function][]ssa.Instruction // write sites to pre-existing memory, per function
+	activeProp  string                              // when set, only clauses serving this property are used (assumed and checked)
 }
 
 // funcKey gives the contract key of an SSA function.
